@@ -2,6 +2,7 @@ import Proofs.ObsValue
 import Proofs.ObsMulti
 import Proofs.ObsGenEq
 import Proofs.ObsValGenEq
+import Proofs.ObsMaGenEq
 import Mathlib.Tactic.Linarith
 import Mathlib.Tactic.NormNum
 
@@ -864,3 +865,125 @@ example : Obs.normalizeFixed 0 255 51 = 1 / 5 ∧ Obs.normalizeFixed 0 0 0 = 0 :
   norm_num [Obs.normalizeFixed, Obs.scaleOf]
 
 end C15ValSrc
+
+/-!
+## Round 5: the multi-agent dict loops inside the model (`Gen/ObsMaGen.lean`, harness/py2lean_obsma.py)
+
+`MultiAgentRLAlgorithm.preprocess_observation`, `sum_shared_rewards`, `IPPO.preprocess_observation` and
+`IPPO.assemble_shared_inputs` are translated from the source text; `Proofs/ObsMaGenEq.lean` proves them equal to
+`Obs.maPreprocess`, `Obs.sumShared`, `Obs.ippoPreprocess`, `Obs.assembleShared`.
+-/
+namespace C15MaSrc
+open ObsValGen ObsMaGen ObsMaGenEq
+
+/-- **(i) over the generated code**: whenever the translated `MultiAgentRLAlgorithm.preprocess_observation` returns,
+for every agent list, every key order of the observation dict and every agent `a` in it, the entry of `a` is `a`'s
+observation prepared with `a`'s OWN space `self.observation_space.get(a)`; agents absent from the dict get no entry. -/
+theorem C15_source_translation_ma_own_space {O S P} (ids : List String) (spaces : PyDict S)
+    (prep : O → Option S → M P) (obs res : PyDict O → PyDict P) (o : PyDict O)
+    (h : ma_preprocess_observation ids spaces prep o = .ok (res o)) (a : String) :
+    (a ∈ pyKeys o → ∃ x v, pyGet o a = .ok x ∧ prep x (pyGetOpt spaces a) = .ok v ∧ pyGet (res o) a = .ok v)
+    ∧ (a ∉ pyKeys o → pyGet (res o) a = .error .key) := by
+  rw [gen_ma_preprocess_eq] at h
+  cases hm : Obs.maPreprocess Exn.key ids spaces.items prep o.items with
+  | error e => rw [hm] at h; cases h
+  | ok r =>
+    rw [hm] at h
+    have hr : res o = ⟨r⟩ := by simp only [Except.map] at h; exact (Except.ok.inj h).symm
+    have := maPreprocess_own_space Exn.key ids spaces.items prep o.items r hm a
+    constructor
+    · intro ha
+      obtain ⟨x, v, h1, h2, h3⟩ := this.1 ha
+      exact ⟨x, v, by rw [pyGet_eq, h1]; rfl, by rw [pyGetOpt_eq]; exact h2, by rw [pyGet_eq, hr, h3]; rfl⟩
+    · intro ha
+      rw [pyGet_eq, hr, this.2 ha]; rfl
+
+/-- the result does not depend on the order in which the observation dict lists the agents: two dicts with the same
+entries per agent give the same entry per agent -/
+theorem C15_source_translation_ma_order_invariant {O S P} (ids : List String) (spaces : PyDict S)
+    (prep : O → Option S → M P) (o1 o2 r1 r2 : PyDict _)
+    (h1 : ma_preprocess_observation ids spaces prep o1 = .ok r1)
+    (h2 : ma_preprocess_observation ids spaces prep o2 = .ok r2)
+    (hk : ∀ a, a ∈ pyKeys o1 ↔ a ∈ pyKeys o2) (hv : ∀ a, pyGet o1 a = pyGet o2 a) (a : String) :
+    pyGet r1 a = pyGet r2 a := by
+  have A := C15_source_translation_ma_own_space ids spaces prep (fun _ => r1) (fun _ => r1) o1 h1 a
+  have B := C15_source_translation_ma_own_space ids spaces prep (fun _ => r2) (fun _ => r2) o2 h2 a
+  by_cases ha : a ∈ pyKeys o1
+  · obtain ⟨x, v, e1, e2, e3⟩ := A.1 ha
+    obtain ⟨x', v', f1, f2, f3⟩ := B.1 ((hk a).mp ha)
+    rw [hv a, f1] at e1
+    cases e1
+    rw [e2] at f2
+    cases f2
+    rw [e3, f3]
+  · rw [A.2 ha, B.2 (fun hb => ha ((hk a).mpr hb))]
+
+/-- decided witness for the seeded change "agent 0's space for every agent" -/
+theorem C15_source_translation_ma_fixed_space_witness :
+    ma_preprocess_observation ["a_0", "b_0"] ⟨[("a_0", 2), ("b_0", 5)]⟩ (fun (o : Nat) s => .ok (o, s))
+        ⟨[("b_0", 7), ("a_0", 1)]⟩ = .ok ⟨[("a_0", (1, some 2)), ("b_0", (7, some 5))]⟩
+    ∧ Obs.maPreprocessFixedSpace Exn.key ["a_0", "b_0"] [("a_0", 2), ("b_0", 5)] "a_0" (fun (o : Nat) s => .ok (o, s))
+        [("b_0", 7), ("a_0", 1)] = .ok [("a_0", (1, some 2)), ("b_0", (7, some 2))] := by
+  constructor
+  · rw [gen_ma_preprocess_eq]
+    have : Obs.maPreprocess Exn.key ["a_0", "b_0"] [("a_0", 2), ("b_0", 5)] (fun (o : Nat) s => .ok (o, s))
+        [("b_0", 7), ("a_0", 1)] = .ok [("a_0", (1, some 2)), ("b_0", (7, some 5))] := by decide
+    simp only [this]; rfl
+  · decide
+
+/-- `sum_shared_rewards`, `IPPO.preprocess_observation`, `IPPO.assemble_shared_inputs`: generated = model -/
+theorem C15_source_translation_ma_loops_eq :
+    (∀ (shared : List String) (rewards : PyDict Rat),
+      sum_shared_rewards shared rewards = (Obs.sumShared Exn.key shared rewards.items).map PyDict.mk)
+    ∧ (∀ {O S P : Type} (ids shared : List String) (spaces : PyDict S) (prep : O → Option S → M P)
+        (concat : List P → M (List P)) (obs : PyDict O),
+      ippo_preprocess_observation ids shared spaces prep concat obs
+        = (Obs.ippoPreprocess Exn.key ids shared spaces.items prep concat obs.items).map PyDict.mk)
+    ∧ (∀ {E V : Type} (ids shared : List String) (stack : E → Bool → M (List V)) (input : PyDict E),
+      (assemble_shared_inputs ids shared stack input).map (fun d => proj d.items)
+        = Obs.assembleShared Exn.key ids shared (stack0 stack) input.items) :=
+  ⟨fun s r => gen_sum_shared_rewards_eq s r, fun ids sh sp p c o => gen_ippo_preprocess_eq ids sh sp p c o,
+   fun ids sh st i => gen_assemble_shared_inputs_eq ids sh st i⟩
+
+/-- **(iii) over the generated code**: whenever the translated `sum_shared_rewards` returns, the entry of every group
+`g` of `shared_agent_ids` is `0 +` exactly the rewards of the agents whose group (`get_homo_id`) is `g`, in the order of
+the rewards dict — with `R` the vector of per-env rewards and pointwise `+` this is the sum env by env —, and nothing
+else has an entry. -/
+theorem C15_source_translation_ma_sum_shared_rewards {R} [Add R] [OfNat R 0] (shared : List String)
+    (rewards res : PyDict R) (h : sum_shared_rewards shared rewards = .ok res) (g : String) :
+    Obs.alookup g res.items = if g ∈ shared then some (groupSum g rewards.items 0) else none := by
+  rw [gen_sum_shared_rewards_eq] at h
+  cases hm : Obs.sumShared Exn.key shared rewards.items with
+  | error e => rw [hm] at h; cases h
+  | ok r =>
+    rw [hm] at h
+    have hr : res = ⟨r⟩ := by simp only [Except.map] at h; exact (Except.ok.inj h).symm
+    rw [hr]
+    exact sumShared_sums_own_group Exn.key shared rewards.items r hm g
+
+/-- **(iv) over the generated code**: whenever the translated (repaired) `IPPO.assemble_shared_inputs` returns, every
+group of `shared_agent_ids` lists exactly its agents present in the input, in the order of `self.agent_ids`: the order
+of the input dictionary does not occur in the result. -/
+theorem C15_source_translation_ma_shared_inputs_order {E V} (ids shared : List String)
+    (stack : E → Bool → M (List V)) (input : PyDict E) (res : PyDict (PyDict V)) (hnd : ids.Nodup)
+    (h : assemble_shared_inputs ids shared stack input = .ok res) (g : String) :
+    (Obs.alookup g (proj res.items)).map Obs.akeys
+      = if g ∈ shared then some (groupMembers input.items g ids) else none := by
+  have e := gen_assemble_shared_inputs_eq ids shared stack input
+  rw [h] at e
+  exact assembleShared_agent_ids_order Exn.key ids shared (stack0 stack) input.items _ hnd e.symm g
+
+/-- two input dictionaries holding the same agents in ANY two orders are grouped with identical agent lists -/
+theorem C15_source_translation_ma_shared_inputs_order_invariant {E V} (ids shared : List String)
+    (stack : E → Bool → M (List V)) (i1 i2 : PyDict E) (r1 r2 : PyDict (PyDict V)) (hnd : ids.Nodup)
+    (hsame : ∀ a, pyInDict a i1 = pyInDict a i2)
+    (h1 : assemble_shared_inputs ids shared stack i1 = .ok r1)
+    (h2 : assemble_shared_inputs ids shared stack i2 = .ok r2) (g : String) :
+    (Obs.alookup g (proj r1.items)).map Obs.akeys = (Obs.alookup g (proj r2.items)).map Obs.akeys := by
+  rw [C15_source_translation_ma_shared_inputs_order ids shared stack i1 r1 hnd h1 g,
+    C15_source_translation_ma_shared_inputs_order ids shared stack i2 r2 hnd h2 g]
+  have : ∀ a, (Obs.alookup a i1.items).isSome = (Obs.alookup a i2.items).isSome := by
+    intro a; rw [← pyInDict_eq, ← pyInDict_eq]; exact hsame a
+  simp [groupMembers, this]
+
+end C15MaSrc
